@@ -82,6 +82,19 @@ known("C01", "C01-same-key-across-fragment-explicit-typename", ["same-response-k
       witness="{ named { __typename } ... { named { ... on N1 { calc } } } }")
 fixed("C01", "C01-same-response-key-siblings-not-merged", "7dafd02", "{ n1s { name } n1s { phone } }: the sanitizer kept the first of two sibling fields with one response key and dropped the other's selections (phone missing, no error)")
 
+known("C01", "C01-conditional-explicit-id-leaks", ["dir-on-fragment", "explicit-id"], r"^diff:EXTRA id$",
+      "an `id` the client selects inside a fragment with @skip / @include on a Node type: the planner needs an id it can rely on for stitching and asks for a second, unconditional one which it cannot scrub (the client may be owed its own); when the fragment is switched off the id is in the answer although nobody asked for it (before fix 34b5f2f the fragment's directive was dropped altogether and everything inside it was returned)",
+      witness="{ n1s { ... @skip(if: true) { id } } }")
+for a in ["interface-field", "union-field", "root-node", "node-interface-field"]:
+    known("C01", "C01-directive-on-fragment-in-abstract-field:" + a, ["dir-on-fragment", a],
+      r"^(errors: (INVALID SUBREQUEST: (Fragment cannot be spread here|Cannot query field \"node\" on type|Unknown type)|unable to find type  in schema)|diff:EXTRA (<field>|__typename)$)",
+      "a fragment that carries @skip / @include inside a field of an interface, union or Node type (and under the root node lookup): the rewriting of abstract selections into per-type fragments does not expect an untyped or abstract fragment with directives in between and produces fragments the receiver cannot accept, or drops the directive",
+      witness="{ named { ... @skip(if: true) { ... on N1 { id } } } }")
+fixed("C01", "C01-fragment-directives-dropped", "34b5f2f", "{ n1s { ... @skip(if: true) { name } phone } } returned name; mutation ($inc: Boolean!) { ... on Mutation @include(if: $inc) { incr(by: 1) } } with inc=false executed the mutation: a fragment on an object type was dissolved into its parent and its directives were dropped")
+fixed("C13", "C13-introspection-list-order", "9452942", "{ __schema { types { kind } } } / { types { n: name } }: the lists under __schema were sorted by the `name` key of the answer only; without it they came back in map iteration order")
+fixed("C19", "C19-literal-forwards-variable", "fe55c44", 'mutation ($f: Upload) { upload(f: $f) plain1(s: "f") }: the step variable list was filled with the raw text of every argument value; a literal reading like a variable name made the step forward that variable (here: the file) to a service which does not use it')
+fixed("C15", "C15-default-named-roots-lost", "5e01f44", "schema { query: RootQuery mutation: Mutation }: the reconstruction printed a schema block with the renamed root only and lost the default-named Mutation (Subscription) root")
+fixed("C02", "C02-variable-type-last-position-wins", "159f8ec", "mutation ($n: Int!) { incr(by: $n) mkN1 { calc(x: $n) } }: a variable used at an Int! and an Int position of one sub-request was declared with the type of the position visited last (Int), the service rejected the request")
 # ----------------------------------------------------------------------------- C02 (same defect classes seen at the plan / sub-request level)
 C02 = [
  ("root-node", ["root-node"], [r"^plan-drops-client-field: (__typename|node|id|<field>)$", r"^subrequest-invalid: Cannot query field \"<x>\" on type \"<x>\"\.", r"^subrequest-invalid: Fields \"id\" conflict",
@@ -94,6 +107,11 @@ C02 = [
  ("shared-enum-extended", ["shared-enum-extended"], [r"^subrequest-invalid: Value \"<x>\" does not exist in \"<x>\" enum\.$", r"^subrequest-variable-error: "], "enum value known to one service only is forwarded to the other"),
  ("var-named-id", ["var-named-id"], [r"^subrequest-invalid: Variable \"\$id\" of type", r"^variable-value-differs: "], "client variable named id collides with the stitching variable"),
 ]
+for a in ["interface-field", "union-field", "root-node", "node-interface-field"]:
+    C02.append(("directive-on-fragment-in-abstract-field:" + a, ["dir-on-fragment", a],
+                [r"^planner-error: could not find location for field ", r"^planner-error: unable to find type  in schema$", r"^subrequest-invalid: (Fragment cannot be spread here|Cannot query field \"node\" on type|Unknown type)",
+                 r"^plan-adds-non-helper-field$", r"^plan-drops-client-field: ", r"^helper-not-registered-for-removal: "],
+                "a fragment with @skip / @include inside an interface-, union- or Node-typed field or under the root node lookup is not expected by the rewriting of abstract selections (see the C01 entry)"))
 for name, atoms, sigs, what in C02:
     for i, sg in enumerate(sigs):
         known("C02", "C02-%s-%d" % (name, i), atoms, sg, what)
